@@ -321,7 +321,11 @@ func (p goTypes) cvtStruct(typ *types.Struct) (raw *types.Struct, cvt bool) {
 		flds[i] = f
 	}
 	if needcvt {
-		return types.NewStruct(flds, nil), true
+		tags := make([]string, n)
+		for i := 0; i < n; i++ {
+			tags[i] = typ.Tag(i)
+		}
+		return types.NewStruct(flds, tags), true
 	}
 	return typ, false
 }
